@@ -66,6 +66,8 @@ class ExplorerScriptSsbDecompiler:
     indent: int
     _line_number: int
     labels_already_printed: list[int] = []
+    # Ids of the labels that a written `jump @label_N;` or `call @label_N;` names.
+    labels_jumped_to: list[int] = []
     smb: SourceMapBuilder | None
     performance_progress_list_var_name: str
     dungeon_mode_constants: DungeonModeConstants
@@ -95,6 +97,7 @@ class ExplorerScriptSsbDecompiler:
         self.indent = 0
         self._line_number = 1
         self.labels_already_printed = []
+        self.labels_jumped_to = []
         self.smb = None
         self.performance_progress_list_var_name = performance_progress_list_var_name
         self.dungeon_mode_constants = dungeon_mode_constants
@@ -105,6 +108,7 @@ class ExplorerScriptSsbDecompiler:
         self._output = ""
         self.indent = 0
         self.labels_already_printed = []
+        self.labels_jumped_to = []
         self._line_number = 1
         self.smb = SourceMapBuilder()
 
@@ -158,6 +162,12 @@ class ExplorerScriptSsbDecompiler:
                     self.named_coroutines[r_id] if r_id in self.named_coroutines else None,
                 )
                 RoutineWriteHandler(self, r_id, r_info, r_graph).write_content()
+
+            # A label is only written where its own routine reaches it. If a jump or call names a label that was
+            # never written (eg. another routine jumps to code that its routine does not reach), the text would
+            # not compile.
+            missing_labels = [x for x in self.labels_jumped_to if x not in self.labels_already_printed]
+            assert len(missing_labels) == 0, f"Jumps to labels that were not written: {missing_labels}"
 
             return self._output, self.smb.build()
 
@@ -223,10 +233,11 @@ class ExplorerScriptSsbDecompiler:
         ):
             # Loop continue/break
             # Do nothing
-            pass
+            return
         else:
             # Jump as part of a control structure
             self.write_stmnt(f"jump @label_{label_id};")
+        self.labels_jumped_to.append(label_id)
 
     def source_map_add_opcode(self, op_offset: int) -> None:
         """Has to be called BEFORE writing the opcode."""
